@@ -211,7 +211,9 @@ def main(argv):
     repo = repo_path()
     t0 = time.time()
     os.environ["VERIF_TIER"] = tier  # contract modules widen bounds / configurations in the thorough tier
-    ev_path = os.path.join(VERIF, "evidence", f"{prop}.json")
+    # tools/seedtest.sh points VERIF_EVIDENCE_DIR elsewhere so that /verif/evidence keeps describing /repo
+    ev_dir = os.environ.get("VERIF_EVIDENCE_DIR") or os.path.join(VERIF, "evidence")
+    ev_path = os.path.join(ev_dir, f"{prop}.json")
     os.makedirs(os.path.dirname(ev_path), exist_ok=True)
     if os.path.exists(ev_path):
         os.unlink(ev_path)
